@@ -242,9 +242,9 @@ def directed():
     # whatever is done with the queued messages of the old subscription, what the application is handed stays gap-free per
     # subscription and a later commit never covers a record nobody was handed
     for k, cause in enumerate([[{"op": "rebalance"}], [{"op": "inject", "m": 1, "api": "heartbeat", "nth": 0, "code": 27}], [{"op": "start", "m": 2}]]):
-        for ms in (40, 120, 200):
+        for ms, pace in ((40, 150), (80, 0), (120, 150), (160, 40), (200, 150)):
             out.append(dict(rb, id="D-end-while-fetching-%d-%d" % (k, ms), topics={"t": 1}, records=3000, qcap=2000, steps=[
-                {"op": "start", "m": 1}, {"op": "sleep", "ms": 150}, {"op": "fetch", "m": 1, "n": 2600, "commit": "none", "wait": False, "paceUs": 150}, {"op": "sleep", "ms": ms}] + cause + [
+                {"op": "start", "m": 1}, {"op": "sleep", "ms": 150}, {"op": "fetch", "m": 1, "n": 2600, "commit": "none", "wait": False, "paceUs": pace}, {"op": "sleep", "ms": ms}] + cause + [
                 {"op": "sleep", "ms": 400}, {"op": "waitapp", "m": 1}, {"op": "commitlast", "m": 1},
                 {"op": "fetch", "m": 1, "n": 3500, "commit": "none", "wait": True}, {"op": "commitlast", "m": 1}] + ([{"op": "fetch", "m": 2, "n": 3500, "commit": "none", "wait": True},
                 {"op": "commitlast", "m": 2}, {"op": "fetch", "m": 1, "n": 3500, "commit": "none", "wait": True}, {"op": "commitlast", "m": 1}] if k == 2 else [])))
